@@ -62,7 +62,7 @@ def run(run, tier, seed):
                 "every one of the 30 k: build, then both loaders, nk, align, merge in both orders, weed, distance, delete, "
                 "and an empty-after-filter file, each compared by TLC with the operation on the in-memory table; special "
                 "inputs: k>=35 single-strand files whose k-mers all fit in 64 bits, k=33, tables of several thousand k-mers "
-                "(multi-frame). non-trivial = k>31, multi-frame or empty; distinct by (k, kind, samples)")
+                "(multi-frame); `ska lo` on planted-SNP genome sets at k in {31,33,35..63} (Trace_Lo). non-trivial = k>31, multi-frame or empty; distinct by (k, kind, samples)")
     run.assumptions = ["`ska nk` is the observation of file content; the library loaders are called on the same file"]
     d = vlib.design_check("MC_SkfFile", "MC_SkfFile", "c09-skf", workers=4, timeout=600, want_replay=True)
     run.add_design(d)
@@ -116,6 +116,12 @@ def run(run, tier, seed):
     finally:
         sb.close()
     validate(run, events, "c09", tier)
+    # `ska lo` is a subcommand too: on 128-bit files (k = 33: every split k-mer still fits in 64 bits; k >= 35: it does not)
+    # it must find the planted isolated SNPs exactly as on 64-bit files (the C17 relation, Trace_Lo)
+    import lodrv
+    from props import c17
+    lo_events = lodrv.snp_events(run, tier, seed + 909, "c09lo", ks=[31, 33, 35, 37, 41, 47, 55, 63], n=8 if tier == "quick" else 60)
+    c17.finish(run, lo_events, "c09lo", tier)
 
 
 def replay(run, path):
@@ -132,5 +138,11 @@ def replay(run, path):
                 run.fail(case, "loader acceptance still differs")
         finally:
             sb.close()
+    elif str(case.get("ev", "")).startswith("lo."):
+        # the `ska lo` stratum is re-derived from the seed (scenario generation and driving are deterministic)
+        import lodrv
+        from props import c17
+        seed = int(os.environ.get("VERIF_SEED", "20260926"))
+        c17.finish(run, lodrv.snp_events(run, "quick", seed + 909, "c09lor", ks=[31, 33, 35, 37, 41, 47, 55, 63], n=8), "c09lor", "quick")
     else:
         rerun_episode(run, case, "c09r")
